@@ -323,6 +323,8 @@ func checkC09() *checkDef {
 				// the file backend) still reaches the client
 				{Pkg: "./proxy", Scenario: "proxy/range", Params: map[string]any{"backend": "file"}},
 				{Pkg: "./proxy", Scenario: "proxy/fault", Params: map[string]any{}},
+				// requests with a body whose first answer is not kept, over net/http's own Transport
+				{Pkg: "./proxy", Scenario: "proxy/wire", Params: map[string]any{}, Workers: 1},
 				{Pkg: "./proxy", Scenario: "proxy/sched", Params: ps, K: k, E: 1, F: 1, Horizon: 8000},
 			}
 		},
